@@ -12,6 +12,7 @@ import (
 	"context"
 	"math"
 	"math/rand"
+	"sync/atomic"
 	"testing"
 	"time"
 
@@ -104,9 +105,9 @@ func TestReproPollerLivelock(t *testing.T) {
 	resp := &Responder{Chain: ch}
 	// certificates 0..2 valid, the stream is cut in the middle of certificate 3, pending = 10
 	resp.Arm(Script{Kind: "truncated", At: 3, Pending: "honest", Served: 10})
-	requests := 0
+	var requests atomic.Int64
 	resp.onServe = func(n int) {
-		requests = n
+		requests.Store(int64(n))
 		if n >= 50 {
 			cancel()
 		}
@@ -121,8 +122,8 @@ func TestReproPollerLivelock(t *testing.T) {
 		t.Fatal(err)
 	}
 	res, err := p.Poll(ctx, hs[0].ID())
-	t.Logf("Poll returned %+v err=%v after %d requests; NextInstance=%d", res, err, requests, p.NextInstance)
-	if requests > 3 {
-		t.Errorf("Poll issued %d requests (cut by the test); the second one already got 0 certificates with pending > next", requests)
+	t.Logf("Poll returned %+v err=%v after %d requests; NextInstance=%d", res, err, requests.Load(), p.NextInstance)
+	if requests.Load() > 3 {
+		t.Errorf("Poll issued %d requests (cut by the test); the second one already got 0 certificates with pending > next", requests.Load())
 	}
 }
